@@ -18,6 +18,10 @@ CHECKS = {
              note='the rebuilt binary is verified to be the loaded one; stale in-tree .so is never used; float32/MKL not covered'),
  'C05': dict(text='spec/Factor.tla builds block-sparse matrices over Gaussian integers (unsorted / repeated charge blocks, pipes on either side, non-zero qtotal, absent vs stored-zero blocks, planted ranks) and states each factorization as a relation whose data TLC computes exactly (per-sector ranks by fraction-free elimination, trace moments, expected charge multiset / qconj / qtotals of the new leg, finite exponential series); TLC checks FactorChargeRule, SectorsConsistent, ExpmRule etc. exhaustively; every enumerated case is replayed on the real svd/qr/lq/eigh/eig/eigvals/speigs/expm/pinv/polar/orthogonal_columns: structure compared exactly, characterising identities evaluated on the returned floats at 1e-9*scale.',
              note='accuracy on ill-conditioned matrices not decided (small integer instances only); ARPACK path of speigs not modelled; trusts TLC and harness/factor.py'),
+ 'C12': dict(text='spec/Sites.tla defines every predefined site class (spin S<=3, boson cutoff<=4, clock q<=5, fermion, spinful fermion, hole) from the documented physics with exact entries (phase, integer times square root of a squarefree radical, denominator) for every conserve option; TLC checks the defining algebras, hc pairs, operator charges and the permutation between conserve options, and the grouping/common-charge policies. spec/Fermion.tla is a genuine Fock space on bit strings plus tenpy\'s Jordan-Wigner route written like the implementation; TLC checks CAR and that every route yields the signed partial permutation of the product of true fermionic operators for all pairs/quadruples on <=6 sites. Every table and every term is replayed on the real Site objects and through each tenpy route (order_combine_term, *_handle_JW, TermList->MPOGraph->MPO, add_coupling/add_multi_coupling, expectation_value_term, apply_local_term, correlation_function, GroupedSite) and compared exactly.',
+             note='clock-site phases come from np.exp and are compared at 1e-13; infinite bc / unit-cell shifts in handle_JW, explicit_plus_hc not replayed; trusts TLC and harness/sites.py'),
+ 'C13': dict(text='spec/Sweep.tla is the sweep/environment bookkeeping state machine (tensor versions, LP/RP parts with the versions they were contracted from, ages, schedules of one-/two-site engines on finite and infinite chains, mixers, free_no_longer_needed_envs); TLC checks FreshEnvs, AgeRule, SweepCoversAllBonds, NoRecompute, EnergySize; real DMRG/TDVP runs are recorded by interposition on set_B / get_LP / get_RP / del_* / update_local / make_eff_H and each history is validated by TLC against spec/TraceSweep.tla. spec/Solvable.tla carries certified exactly solvable Hamiltonians (classical, dimer, Majumdar-Ghosh, ferromagnet) with certificates TLC checks over the integers; engines x mixers x diag methods are run on them and the postconditions (norm, canonical form, charge sector, E = <H>, E >= E0, E = E0 and overlap 1 when untruncated) are evaluated with the certified data; effective Hamiltonians on integer data are compared exactly.',
+             note='convergence for Hamiltonians without certificate and VUMPS in the thermodynamic limit are not decided; orthogonal_to / segment bc not traced; trusts TLC and harness/sweeps.py'),
  'C14': dict(text='spec/TimeEvo.tla models time/schedule/truncation-error accounting of all time-evolution engines (Suzuki-Trotter schedules as exact symbolic polynomials, error bags); TLC checks TimeAdvance, ScheduleComposes, ErrAccounting over all orders/splits; real engine runs (TEBD 1/2/4/4_opt, QR-TEBD, TDVP 1/2-site, ExpMPO I/II, time-dependent variants) are recorded by run-time interposition and each trace is validated by TLC against spec/TraceTimeEvo.tla with every invariant evaluated at every event.',
              note='orders of convergence in dt and drift bounds are asymptotic numerical claims and not decided; trusts TLC, the recorder harness/timeevo.py'),
  'C20': dict(text='TLC exhaustively checks Events / DictCacheSeq / CacheThreaded (emit order, exact disconnect, dictionary refinement, sub-cache isolation, no deadlock, failure surfaces) for all operation sequences and interleavings up to a bound; every generated behaviour is replayed step by step into the real EventHandler / DictCache over Storage, PickleStorage, Hdf5Storage and, under a deterministic cooperative scheduler substituted for queue/threading, into the real ThreadedStorage + Worker.',
